@@ -365,7 +365,19 @@ func replayCase(c *Case, rng *rand.Rand, report func(Mismatch)) int {
 		}
 		n += replayOne[dfa.DenseMapLattice[int, latMax]](c, sliceCodec(func(e int) int { return e }, func(e int) int { return e }), rng, report)
 		n += replayOne[dfa.MapLattice[string, int, latMax]](c, mapCodec(func(e int) int { return e }, func(e int) int { return e }), rng, report)
+		if c.Lat == "chain2" {
+			d := func(e int) int { return 1 - e }
+			n += replayOne[dfa.DenseMapLattice[int, latMin1]](c, sliceCodec(d, d), rng, report)
+		} else {
+			d := func(e int) int { return 2 - e }
+			n += replayOne[dfa.DenseMapLattice[int, latMin2]](c, sliceCodec(d, d), rng, report)
+		}
 	case "pow2":
+		{
+			d := func(e int) int { return ^e & 3 }
+			n += replayOne[dfa.DenseMapLattice[int, latAnd]](c, sliceCodec(d, d), rng, report)
+			n += replayOne[dfa.MapLattice[string, int, latAnd]](c, mapCodec(d, d), rng, report)
+		}
 		n += replayOne[latOr](c, plainInt(), rng, report)
 		n += replayOne[latAnd](c, complInt(), rng, report)
 		n += replayOne[dfa.DenseMapLattice[int, latOr]](c, sliceCodec(func(e int) int { return e }, func(e int) int { return e }), rng, report)
@@ -650,6 +662,15 @@ func cmdLattice(args []string) {
 	mapPairs[int, latMax]("chain3", 3, 2, id, id, &mObs, &lawFail)
 	mapPairs[int, latOr]("pow2", 4, 2, id, id, &mObs, &lawFail)
 	mapPairs[VN, nilness.VerifLattice]("nil5", 5, 2, vn, unvn, &mObs, &lawFail)
+	// the same lattices in their order-dual encodings: Ident() is not the zero value of the element type, so a
+	// missing key / a position past the end of the shorter slice must be read as Ident(), not as the zero value
+	d1, d2, cp := func(e int) int { return 1 - e }, func(e int) int { return 2 - e }, func(e int) int { return ^e & 3 }
+	densePairs[int, latMin1]("chain2", 2, 3, d1, d1, &dObs, &lawFail)
+	densePairs[int, latMin2]("chain3", 3, 2, d2, d2, &dObs, &lawFail)
+	densePairs[int, latAnd]("pow2", 4, 2, cp, cp, &dObs, &lawFail)
+	mapPairs[int, latMin1]("chain2", 2, 2, d1, d1, &mObs, &lawFail)
+	mapPairs[int, latMin2]("chain3", 3, 2, d2, d2, &mObs, &lawFail)
+	mapPairs[int, latAnd]("pow2", 4, 2, cp, cp, &mObs, &lawFail)
 	if lawFail == nil {
 		lawFail = []string{}
 	}
